@@ -20,6 +20,7 @@ def check(ctx):
     # ... with the detrend basis every dispatch site hands it: orthonormal columns spanning degrees 0..order (the reference estimator's trend)
     from ..qbasis import check_build_Q
     check_build_Q(ctx)
+    check_result_fields_aligned(ctx, rule="R10-result-fields-aligned")
     from ..effects import check_no_shared_module_state
     check_no_shared_module_state(ctx, rule="R9-config-not-shared")
     ctx.trust("E3/E5 abstract interpreter and library model", "L1 Goertzel closed form", "L2", "L17 chunk partition")
